@@ -40,3 +40,25 @@ pub proof fn lemma_ckd_priv_path_step(k: Seq<u8>, chain: Seq<u8>, idxs: Seq<u32>
     assert(idxs.take(n + 1).last() == idxs[n]);
     assert(idxs.take(n + 1).len() == n + 1);
 }
+// (compressed SEC1 point, chain code) reached from (serP, chain) by public derivation along idxs, left to right
+pub open spec fn ckd_pub_step(serp: Seq<u8>, chain: Seq<u8>, index: u32) -> (Seq<u8>, Seq<u8>) {
+    let i = ckd_i(chain, serp + be32(index));
+    (sec1_form(pt_add(sec1_point(serp), pub_of(i.subrange(0, 32)))->Some_0, true), i.subrange(32, 64))
+}
+pub open spec fn ckd_pub_path(serp: Seq<u8>, chain: Seq<u8>, idxs: Seq<u32>) -> (Seq<u8>, Seq<u8>)
+    decreases idxs.len()
+{
+    if idxs.len() == 0 { (serp, chain) } else {
+        let p = ckd_pub_path(serp, chain, idxs.drop_last());
+        ckd_pub_step(p.0, p.1, idxs.last())
+    }
+}
+pub proof fn lemma_ckd_pub_path_step(serp: Seq<u8>, chain: Seq<u8>, idxs: Seq<u32>, n: int)
+    requires 0 <= n < idxs.len()
+    ensures ({ let p = ckd_pub_path(serp, chain, idxs.take(n)); ckd_pub_path(serp, chain, idxs.take(n + 1)) == ckd_pub_step(p.0, p.1, idxs[n]) }),
+        n == 0 ==> ckd_pub_path(serp, chain, idxs.take(n)) == (serp, chain)
+{
+    assert(idxs.take(n + 1).drop_last() =~= idxs.take(n));
+    assert(idxs.take(n + 1).last() == idxs[n]);
+    assert(idxs.take(n + 1).len() == n + 1);
+}
